@@ -298,6 +298,67 @@ class PlainFactory(DefaultOptNodeFactory):
     pass
 
 
+CONTAINERS = ['list', 'tuple', 'generator', 'map', 'iter', 'set', 'frozenset', 'dict_keys', 'dict_values', 'dict']
+
+
+def make_container(kind, types):
+    """the node types as one of the legal `Iterable[str]` arguments of DefaultOptNodeFactory; every one of
+    them denotes the same abstract collection of names as list(types)"""
+    types = list(types)
+    if kind == 'list':
+        return list(types)
+    if kind == 'tuple':
+        return tuple(types)
+    if kind == 'generator':
+        return (t for t in types)
+    if kind == 'map':
+        return map(str, types)
+    if kind == 'iter':
+        return iter(types)
+    if kind == 'set':
+        return set(types)
+    if kind == 'frozenset':
+        return frozenset(types)
+    if kind == 'dict_keys':
+        return dict.fromkeys(types).keys()
+    if kind == 'dict_values':
+        return {i: t for i, t in enumerate(types)}.values()
+    if kind == 'dict':
+        return dict.fromkeys(types, 1)
+    raise ValueError(kind)
+
+
+class LogDefaultFactory(DefaultOptNodeFactory):
+    """the repository's DefaultOptNodeFactory (real __init__ / get_node / exchange_node / get_parent_node) built from
+    a set / dict view / one-shot iterator / ... of node types; only the outermost call is logged"""
+
+    def __init__(self, available_node_types):
+        super().__init__(available_node_types)
+        self.log, self._inner = [], False
+
+    def _outer(self, entry, call):
+        if self._inner:
+            return call()
+        self._inner = True
+        try:
+            r = call()
+        finally:
+            self._inner = False
+        self.log.append(entry + (r,))
+        return r
+
+    def exchange_node(self, node):
+        return self._outer(('exchange', node, None), lambda: super(LogDefaultFactory, self).exchange_node(node))
+
+    def get_parent_node(self, node, **kwargs):
+        return self._outer(('parent', node, kwargs.get('is_primary')),
+                           lambda: super(LogDefaultFactory, self).get_parent_node(node, **kwargs))
+
+    def get_node(self, **kwargs):
+        return self._outer(('node', None, kwargs.get('is_primary')),
+                           lambda: super(LogDefaultFactory, self).get_node(**kwargs))
+
+
 class LogAdvisor(DefaultChangeAdvisor):
     def __init__(self, advice):
         super().__init__()
@@ -399,10 +460,14 @@ def run_mutation_case(spec):
     parents_b = {r: list(hb[r][2]) for r in gb}
 
     types = TYPES[:spec['ntypes']]
-    fac = LogFactory(types, spec['none_p'], frng)
+    if spec.get('container'):
+        # the repository's own node factory, given its node types as a set / view / iterator / ...
+        fac = LogDefaultFactory(make_container(spec['container'], types))
+    else:
+        fac = LogFactory(types, spec['none_p'], frng)
     if spec['rgf'] == 'own':
         rgf = OwnTreeFactory(types, frng, fac.log)
-    elif spec['rgf'] == 'default':
+    elif spec['rgf'] == 'default' and not spec.get('container'):
         rgf = DefaultTreeFactory(PlainFactory(types), fac.log)
     else:  # 'default-none': the default random graph factory on the factory that may return None
         rgf = DefaultTreeFactory(fac, fac.log)
@@ -822,7 +887,8 @@ def run(ctx):
                 '1..3 node types (35% of them answering None at random) x own / repository random graph factory x the five '
                 'RemoveType advices x attempts 1/3/100 x mutation strength weak/mean/strong x seeds; simple_mutation additionally on '
                 '10 skip-edge / shortcut-diamond / ladder DAGs (both parent orders) x 3 strengths x 1..3 node types; crossovers on independent pairs, on deepcopies and on '
-                'mutated deepcopies of one ancestor (shared uids). distinct = distinct call specification; '
+                'mutated deepcopies of one ancestor (shared uids); every mutation also with the repository DefaultOptNodeFactory built from a '
+                'list / tuple / generator / map / iterator / set / frozenset / dict / dict keys / dict values of node types. distinct = distinct call specification; '
                 'non-trivial = input in the domain and the call changed the graph')
     ctx.trusted_extra = [
         'choice inference: the random decisions of a function are reconstructed from our own node factory / random '
@@ -901,6 +967,17 @@ def run(ctx):
         spec['rgf'], spec['none_p'] = 'default-none', 0.35
         d.append(spec)
     evaluate(ctx, 'default-rgf-none', 'mut', d)
+    # ---- the repository's DefaultOptNodeFactory built from every legal kind of Iterable[str]
+    fc = []
+    for container in CONTAINERS:
+        for fn in MUTATIONS:
+            for k in range(ctx.budget(3, 12)):
+                par = rng.choice(SKIP_SHAPES + SHARED_SHAPES) if k == 0 else random_graph_spec(rng, 6)
+                spec = mutation_spec(rng, fn, par)
+                spec['container'], spec['none_p'] = container, 0.0
+                spec['ntypes'] = rng.randint(1, 3)
+                fc.append(spec)
+    evaluate(ctx, 'factory-containers', 'mut', fc)
     canary(ctx)
 
 
